@@ -57,6 +57,8 @@ type steerer struct {
 	last       time.Time
 	ndone      int
 	mismatch   int
+	lastTaken  int
+	outOfOrder int // steps taken before an earlier step of the behaviour
 	extra      int // loop events the behaviour does not have
 	skipped    int // loop steps of the behaviour the code did not take
 }
@@ -107,10 +109,22 @@ func eventActor(e jev) string {
 	return a
 }
 
-// moveLate moves the steps without an effect of their own right in front of the same process's next step.
+// moveLate moves the steps without an effect of their own right in front of the same process's next step.  DownPre (the
+// hook before close(j.done)) is moved in front of the first step that observes the closing - LoopDone, S1Closed, PubClosed
+// or any later step of a Shutdown call: once j.done is closed for real, a select that also has a pending sender is the
+// runtime's choice, and a loop that reaches its select later takes the closed channel for certain.
 func moveLate(raw [][]string) [][]string {
 	out := make([][]string, 0, len(raw))
-	pending := map[string][]string{} // actor -> held step
+	pending := map[string][][]string{} // actor -> held steps, in order
+	var order []string                 // actors with held steps, in the order they were first held
+	flush := func(actor string) {
+		if hs, ok := pending[actor]; ok {
+			out = append(out, hs...)
+			delete(pending, actor)
+		}
+	}
+	observesClose := map[string]bool{"LoopDone": true, "S1Closed": true, "PubClosed": true, "DownOK": true, "DownRecovered": true,
+		"DownClosed": true, "DownCtx": true, "RetDown": true}
 	for _, st := range raw {
 		actor, _ := stepActor(st[0], st[1])
 		// a rendezvous is a step of the loop that is also the next step of the calling process
@@ -120,19 +134,29 @@ func moveLate(raw [][]string) [][]string {
 		case "LoopMsg":
 			actor = "pub:" + st[1]
 		}
-		if h, ok := pending[actor]; ok {
-			out = append(out, h)
-			delete(pending, actor)
+		if observesClose[st[0]] {
+			for _, a := range order {
+				if strings.HasPrefix(a, "down:") {
+					flush(a)
+				}
+			}
 		}
 		switch st[0] {
-		case "CallSub", "CallPub", "CallDown", "S2Ctx":
-			pending[actor] = st
+		case "CallSub", "CallPub", "CallDown", "S2Ctx", "DownPre":
+			if st[0] != "DownPre" {
+				flush(actor)
+			}
+			if _, ok := pending[actor]; !ok {
+				order = append(order, actor)
+			}
+			pending[actor] = append(pending[actor], st)
 			continue
 		}
+		flush(actor)
 		out = append(out, st)
 	}
-	for _, h := range pending {
-		out = append(out, h)
+	for _, a := range order {
+		flush(a)
 	}
 	// Joe's goroutine is started by the first call: its first step cannot precede it
 	ls, call := -1, -1
@@ -183,6 +207,10 @@ func (st *steerer) othersBefore(i int) bool {
 }
 
 func (st *steerer) take(i int, what string) {
+	if i < st.lastTaken {
+		st.outOfOrder++
+	}
+	st.lastTaken = i
 	st.done[i] = true
 	st.ndone++
 	if st.steps[i].name != what {
@@ -221,7 +249,9 @@ func (st *steerer) gate(actor, what string) {
 			m = len(st.loopIdx) // Joe's goroutine is gone: nothing of the loop is left to wait for
 		}
 		if m < 0 {
-			st.extra++
+			if st.ndone < len(st.steps) {
+				st.extra++
+			}
 			return
 		}
 		for k := n; k < m && k < len(st.loopIdx); k++ {
@@ -498,9 +528,12 @@ func (r *srep) Replay(s sse.Subscription) error {
 
 type steerStats struct {
 	Cases, Steered, Stalled, Steps, StepsTaken, Mismatched, Extra, Skipped int
+	Exact                                                                  int // behaviours the real code followed step by step, in the behaviour's order, to their end (in one of the attempts)
+	Attempts                                                               int // runs made: a behaviour that was not followed exactly (Go's select chose otherwise) is tried once more
+	Behaviours                                                             int
 }
 
-func runSteered(idx int, c *steerCase, stats *steerStats) (evs []jev, blocked bool, dump string) {
+func runSteered(idx int, c *steerCase, stats *steerStats) (evs []jev, blocked bool, dump string, exact bool) {
 	procs := []int{1, 2, 16}[idx%3]
 	runtime.GOMAXPROCS(procs)
 	t := newTracer(int64(idx), 0)
@@ -692,6 +725,9 @@ func runSteered(idx int, c *steerCase, stats *steerStats) (evs []jev, blocked bo
 		stats.Stalled++
 	} else {
 		stats.Steered++
+		if st.mismatch == 0 && st.skipped == 0 && st.outOfOrder == 0 && st.ndone == len(st.steps) {
+			exact = true
+		}
 	}
 	st.free = true
 	st.cond.Broadcast()
@@ -702,14 +738,14 @@ func runSteered(idx int, c *steerCase, stats *steerStats) (evs []jev, blocked bo
 		t.mu.Lock()
 		evs = append([]jev(nil), t.evs...)
 		t.mu.Unlock()
-		return evs, true, string(buf[:n])
+		return evs, true, string(buf[:n]), false
 	}
 	for _, c := range cancels {
 		c()
 	}
 	t.mu.Lock()
 	defer t.mu.Unlock()
-	return t.evs, false, ""
+	return t.evs, false, "", exact
 }
 
 // cmdJoeSteer: replays the behaviours of an ndjson file ({"cfg":..., "steps":[...]} per line); writes the traces of what the
@@ -753,15 +789,26 @@ func cmdJoeSteer(args []string) {
 			fatal("behaviour %d: %v", idx, err)
 		}
 		fmt.Fprintf(os.Stderr, "SCENARIO %d\n", idx)
-		evs, blocked, dump := runSteered(idx, &c, stats)
-		for _, e := range evs {
-			enc.Encode(e)
-		}
-		if blocked {
-			fmt.Fprintf(os.Stderr, "BLOCKED %d\n%s\n", idx, dump)
-			f.Sync()
-			writeStats()
-			os.Exit(3)
+		stats.Behaviours++
+		for attempt := 0; attempt < 2; attempt++ {
+			stats.Attempts++
+			evs, blocked, dump, exact := runSteered(idx+attempt*7, &c, stats)
+			for _, e := range evs {
+				if e["e"] == "reset" {
+					e["seed"] = idx
+				}
+				enc.Encode(e)
+			}
+			if blocked {
+				fmt.Fprintf(os.Stderr, "BLOCKED %d\n%s\n", idx, dump)
+				f.Sync()
+				writeStats()
+				os.Exit(3)
+			}
+			if exact {
+				stats.Exact++
+				break
+			}
 		}
 	}
 	writeStats()
